@@ -718,5 +718,48 @@ def r13_13(ctx):
     return r
 
 
+def r13_14(ctx):
+    """'falls silent apart from heartbeats once everything submitted has been acknowledged': a FORWARD-TSN is sent when
+    forward_tsn_pending is set; handle_sack re-arms it while the peer's cumulative ack is behind the advanced ack point
+    (R01.13). What takes it down decides whether the sender ever falls silent: either each transmission consumes the flag
+    (`swap(false)`), or - if the flag is level-triggered - handle_sack lowers it on EVERY path on which the peer is not
+    behind any more (cumulative ack == ack point included; a clear only for `>` leaves it up for good after the exact
+    acknowledgement, and every later transmit() pass emits another FORWARD-TSN)."""
+    r = RuleResult("R13.14", "K4", "the FORWARD-TSN trigger is consumed by sending, or lowered whenever the peer has caught up")
+    b = ctx.body(S + "transmit::{closure#0}")
+    r.scope.append(b.name)
+    consumed = [bi for bi, t, a in core.atomic_sites(b, "forward_tsn_pending", "swap") if mir.int_value(a[1]) == 0]
+    loads = [bi for bi, t, p in b.calls() if p and p.endswith("::load") and t["a"] and mir.has_field(b.term_operand(t["a"][0]), "forward_tsn_pending")]
+    if not consumed and not loads:
+        raise core.CheckerError("R13.14: transmit no longer reads forward_tsn_pending")
+    if consumed and not loads:
+        r.ok({"site": b.where(consumed[0]), "trigger": "consumed by swap(false) when the FORWARD-TSN is built"})
+        return r
+    hs = ctx.body(S + "handle_sack::{closure#0}")
+    r.scope.append(hs.name)
+    lowers = [bi for bi, t, a in core.atomic_sites(hs, "forward_tsn_pending", "store") if mir.int_value(a[1]) == 0]
+    behind = []
+    for sb in range(len(hs.blocks)):
+        if sb in hs.cleanup or hs.blocks[sb]["t"]["k"] != "switch":
+            continue
+        term, outs = hs.switch_info(sb)
+        if term[0] == "call" and term[1].endswith("tsn_gt") and len(term[2]) == 2 and \
+                mir.has(term[2][0], lambda x: core.is_atomic_load(x, "advanced_peer_ack_tsn") or (x[0] == "var" and x[1] == "advanced")) and \
+                not mir.has(term[2][1], lambda x: core.is_atomic_load(x, "advanced_peer_ack_tsn") or (x[0] == "var" and x[1] == "advanced")):
+            behind += [(sb, tgt) for tgt, _, m in outs if m is False]
+    if not behind:
+        raise core.CheckerError("R13.14: the `advanced > cumulative ack` test was not found in handle_sack")
+    ok = bool(lowers) and all(tgt in lowers or core.always_followed_by(hs, sb, lowers, cut_edges=[(sb, t) for t, _ in hs.succ_edges(sb) if t != tgt] + list(hs.back_edges()))
+                              for sb, tgt in behind)
+    if ok:
+        r.ok({"trigger": "level-triggered; lowered on every caught-up path of handle_sack"})
+    else:
+        r.violate(b.name, "forward-tsn:never-lowered", b.where(loads[0]),
+                  "transmit() sends a FORWARD-TSN whenever forward_tsn_pending is set and does not consume it; handle_sack does not lower it on "
+                  "every path on which the peer has caught up (cumulative ack == ack point): after the exact acknowledgement every later "
+                  "transmit pass emits another FORWARD-TSN although everything is acknowledged")
+    return r
+
+
 def run(ctx):
-    return [r13_1(ctx), r13_2(ctx), r13_3(ctx), r13_4(ctx), r13_5(ctx), r13_6(ctx), r13_7(ctx), r13_8(ctx), r13_9(ctx), r13_10(ctx), r13_11(ctx), r13_12(ctx), r13_13(ctx)]
+    return [r13_1(ctx), r13_2(ctx), r13_3(ctx), r13_4(ctx), r13_5(ctx), r13_6(ctx), r13_7(ctx), r13_8(ctx), r13_9(ctx), r13_10(ctx), r13_11(ctx), r13_12(ctx), r13_13(ctx), r13_14(ctx)]
